@@ -71,10 +71,9 @@ Definition is_changing (c : cause) : bool :=
   match c_class c with CChanging => true | _ => false end.
 
 (* ---------- criteria ---------- *)
-(* What a value callback receives: [Some j] a JSON-like Python value ([Some JNull] = Python None),
-   [None] = the private marker object registries._UNSET.token. *)
-Definition cbarg := option json.
-Definition vcallback := cbarg -> cause -> bool.     (* value(v, **kwargs); kwargs come from the cause *)
+(* What a value callback receives: a JSON-like Python value ([JNull] = Python None).  The private marker
+   registries._UNSET.token never reaches a callback (since the repair of F15b, commit b981eb5). *)
+Definition vcallback := json -> cause -> bool.     (* value(v, **kwargs); kwargs come from the cause *)
 
 Inductive crit :=
 | CNone                       (* Python None = not specified *)
@@ -136,7 +135,7 @@ Definition meta_item (c : cause) (content : obj) (key : string) (value : crit) :
   match value with
   | CAbsent => negb (has key content)
   | CPresent => has key content
-  | CCb f => f (match lookup key content with Some v => Some v | None => Some JNull end) c
+  | CCb f => f (match lookup key content with Some v => v | None => JNull end) c   (* content.get(key, None) *)
   | CVal v => match lookup key content with Some w => py_eqb v w | None => false end
   | CNone => match lookup key content with Some w => py_eqb JNull w | None => false end
   end.
@@ -159,12 +158,15 @@ Definition field_values (c : cause) (p : path) : list (option json) :=
 
 Definition is_some {A} (o : option A) : bool := match o with Some _ => true | None => false end.
 
+(* `None if value is absent else value`: a present null and an absent field look the same to a callback *)
+Definition py_arg (v : option json) : json := match v with Some x => x | None => JNull end.
+
 Definition value_on (c : cause) (k : crit) (v : option json) : bool :=
   match k with
   | CNone => is_some v
   | CPresent => is_some v
   | CAbsent => negb (is_some v)
-  | CCb f => f v c                                   (* the marker is passed as it is *)
+  | CCb f => f (py_arg v) c
   | CVal x => match v with Some w => py_eqb x w | None => false end
   end.
 
@@ -187,7 +189,7 @@ Definition side_on (c : cause) (k : crit) (v : option json) : bool :=
   | CNone => true
   | CAbsent => negb (is_some v)
   | CPresent => is_some v
-  | CCb f => f v c
+  | CCb f => f (py_arg v) c
   | CVal x => match v with Some w => py_eqb x w | None => false end
   end.
 
@@ -373,10 +375,22 @@ Definition decorate (k : dkind) (id : string) (fn : nat) (sel : selector)
   end.
 
 (* ---------- callbacks used by the harness (also handy for examples) ---------- *)
-Definition cb_is_none : vcallback := fun v _ => match v with Some JNull => true | _ => false end.
-Definition cb_not_none : vcallback := fun v _ => match v with Some JNull => false | _ => true end.
-Definition cb_eq (x : json) : vcallback := fun v _ => match v with Some w => py_eqb w x | None => false end.
+Definition cb_is_none : vcallback := fun v _ => match v with JNull => true | _ => false end.
+Definition cb_not_none : vcallback := fun v _ => match v with JNull => false | _ => true end.
+Definition cb_eq (x : json) : vcallback := fun v _ => py_eqb v x.
 Definition cb_const (b : bool) : vcallback := fun _ _ => b.
+(* bool(v) *)
+Definition py_truthy (j : json) : bool :=
+  match j with
+  | JNull => false
+  | JBool b => b
+  | JNum z => negb (Z.eqb z 0)
+  | JStr s => negb (String.eqb s "")
+  | JList l => match l with [] => false | _ => true end
+  | JObj o => match o with [] => false | _ => true end
+  | JEnc _ => true
+  end.
+Definition cb_truthy : vcallback := fun v _ => py_truthy v.
 Definition when_const (b : bool) : cause -> bool := fun _ => b.
 (* lambda spec, **_: spec.get(k) == x   (spec is a view: absent/non-mapping spec behaves as empty) *)
 Definition when_spec_eq (k : string) (x : json) : cause -> bool :=
@@ -389,8 +403,8 @@ Definition when_spec_eq (k : string) (x : json) : cause -> bool :=
 (* ====================================================================================== *)
 
 (* "The passed value will be None if the value is absent in the resource." *)
-Definition doc_arg (v : option json) : cbarg :=
-  match v with Some x => Some x | None => Some JNull end.
+Definition doc_arg (v : option json) : json :=
+  match v with Some x => x | None => JNull end.
 
 (* "There are only a few kinds of checks" *)
 Inductive Holds (c : cause) : crit -> option json -> Prop :=
@@ -478,12 +492,6 @@ Definition class_agree (h : hdecl) (c : cause) : Prop := h_is_changing h = is_ch
 (* the essence (cause.new) carries the handler's field as the body does (kopf adds handler fields to it) *)
 Definition essence_ok (h : hdecl) (c : cause) : Prop :=
   is_changing c = true -> forall p, h_field h = Some p -> resolve_opt (c_new c) p = resolve (c_body c) p.
-
-(* a callback which cannot tell the private marker from None *)
-Definition cb_blind (c : cause) (k : crit) : Prop :=
-  match k with CCb f => f None c = f (Some JNull) c | _ => True end.
-Definition cbs_blind (h : hdecl) (c : cause) : Prop :=
-  cb_blind c (h_value h) /\ cb_blind c (h_old h) /\ cb_blind c (h_new h).
 
 (* for handlers other than update handlers on a changing cause: the OLD value does not satisfy the
    value criterion unless the current one does *)
